@@ -21,6 +21,11 @@ def check(prog, run):
              "without a dtype receives values of another origin)", 0)
     reach_ = sorted(q_ for q_ in prog.reachable([prog.func("functions.fdd.FDD_mpe").qual]) if q_ in prog.functions and not q_.startswith("pyoma2.functions.plot"))
     astq.inherited_dtype_rule(prog, run, "R-dtype", reach_)
+    # the stored decomposition stays the decomposition: the extraction writes into nothing that may be (a view of) the arrays it is handed
+    run.rule("R-inputs-intact", "FDD_mpe and what it calls change none of their array arguments in place (stores, augmented assignments, out=, in-place methods, "
+             "through views and through helpers that hand back their argument): result.S_val / S_vec are the same after mpe as before", 1)
+    from . import C15
+    C15.shared_data(prog, run.under({"R-shared-data": "R-inputs-intact"}), reach_)
     run.rule("R-band", "band limits = argmin |freq - (sel - DF)|, argmin |freq - (sel + DF)| on the same grid", 2)
     run.rule("R-ratio", "scanned quantity = Sval[0,0,a:b] / Sval[1,1,a:b] over one slice; selection = arg-max of it", 3)
     run.rule("R-rebase", "frequency and vector are read at slice origin + relative index", 2)
@@ -77,12 +82,15 @@ def check(prog, run):
     if isinstance(idx, ast.BinOp) and isinstance(idx.op, ast.Add):
         for a, b in ((idx.left, idx.right), (idx.right, idx.left)):
             arr_b = astq.argreduce(prog, fi, b, astq.ARGMAX | astq.ARGMIN)
-            if arr_b is not None and any(isinstance(x, ast.Name) and x.id == pSval for x in ast.walk(arr_b)):
+            if arr_b is not None and (rel_i is None or any(isinstance(x, ast.Name) and x.id == pSval for x in ast.walk(arr_b))):
                 origin, rel_i = a, b
     if rel_i is None:
-        bare = astq.argreduce(prog, fi, idx, astq.ARGMAX | astq.ARGMIN) is not None
-        ob("R-rebase", "line index = slice origin + relative index", False,
-           f"freq is indexed with `{astq.src(idx, 80)}`" + (": an arg-reduction over a slice used without adding the slice origin back" if bare else ""), astq.src(idx, 60), fapp[0])
+        arr0 = astq.argreduce(prog, fi, idx, astq.ARGMAX | astq.ARGMIN)
+        # a recognised different construct: the position inside a slice that does not start at line 0, used as a line number
+        bare = arr0 is not None and any(isinstance(s_, ast.Subscript) and any(isinstance(e_, ast.Slice) and e_.lower is not None
+                                        and not (isinstance(e_.lower, ast.Constant) and e_.lower.value == 0) for e_ in astq.index_elts(s_)) for s_ in ast.walk(arr0))
+        ob("R-rebase", "line index = slice origin + relative index", False if bare else None,
+           f"freq is indexed with `{astq.src(idx, 80)}`" + (": an arg-reduction over a slice used without adding the slice origin back" if bare else ": not of the form origin + arg-reduction"), astq.src(idx, 60), fapp[0])
         return
     red = astq.argreduce(prog, fi, rel_i, astq.ARGMAX | astq.ARGMIN)
     kind = "argmax" if astq.callee_name(prog, fi, rel_i) in astq.ARGMAX else "argmin"
@@ -109,7 +117,13 @@ def check(prog, run):
                 if ok1:
                     slices.append(el[2])
             okr = okr and ok1
-    ob("R-ratio", "scanned = first / second singular value", bool(okr), f"`{astq.src(scanned, 100)}`" + ("" if okr else " is not Sval[0,0,a:b] / Sval[1,1,a:b]"), astq.src(scanned, 80), fapp[0])
+    if not okr:
+        # recognised as something else only when it IS written in terms of the singular values: another pair of them, or one alone
+        def _sv(e_):
+            return isinstance(e_, ast.Subscript) and isinstance(e_.value, ast.Name) and e_.value.id == pSval
+        other = (isinstance(scanned, ast.BinOp) and isinstance(scanned.op, ast.Div) and _sv(scanned.left) and _sv(scanned.right)) or _sv(scanned)
+        okr = False if other else None
+    ob("R-ratio", "scanned = first / second singular value", okr, f"`{astq.src(scanned, 100)}`" + ("" if okr else " is not Sval[0,0,a:b] / Sval[1,1,a:b]"), astq.src(scanned, 80), fapp[0])
     if len(slices) == 2:
         same = astq.dump(slices[0]) == astq.dump(slices[1])
         ob("R-ratio", "numerator and denominator over the same slice", same, f"`{astq.src(slices[0], 60)}` vs `{astq.src(slices[1], 60)}`", "different slices", fapp[0])
@@ -276,6 +290,8 @@ MUTANTS = [
     ("C06-m09 vector read at the requested line instead of the picked one", FD, "FDD_mpe", "phi_FDD = Svec[0, :, idxfin]", "phi_FDD = Svec[0, :, idxlim[0]]"),
     ("C06-m10 second singular vector", FD, "FDD_mpe", "phi_FDD = Svec[0, :, idxfin]", "phi_FDD = Svec[1, :, idxfin]"),
     ("C06-m12 hermitian shortcut for square matrices", FD, "SD_svalsvec", "np.linalg.svd(SD[:, :, k])", "np.linalg.svd(SD[:, :, k], hermitian=nr == nc)"),
+    ("C06-m13 ratio formed in place in the stored singular values", FD, "FDD_mpe", "diffS1S2 = Sval[0, 0, idxlim[0]:idxlim[1]] / Sval[1, 1, idxlim[0]:idxlim[1]]",
+     "diffS1S2 = Sval[0, 0, idxlim[0]:idxlim[1]]\ndiffS1S2 /= Sval[1, 1, idxlim[0]:idxlim[1]]"),
     ("C06-m11 bell reads components", FD, "SDOF_bellandMS", "Svec[csm, :, l_]", "Svec[:, csm, l_]", 1),
 ]
 REWRITES = [
